@@ -491,6 +491,9 @@ class ArgSpecCache:
             return (None, False, typ)
         if parameter.default is inspect.Parameter.empty:
             default = None
+        elif parameter.default is Ellipsis:
+            # Same convention as for defaults in function definitions
+            default = AnyValue(AnySource.unannotated)
         else:
             default = KnownValue(parameter.default)
         if (
